@@ -110,6 +110,18 @@ Lemma merge_submessage_latter_only : forall f eh ls, (f_label f = LOptional \/ f
   merge_slot rec f (SOne eh (VMsg None)) ls = Ok ls.
 Proof. intros f eh ls [Hl|Hl] Ht (lh & lv & ->); unfold merge_slot; rewrite Hl, Ht; reflexivity. Qed.
 
+(* required: a sub-message is merged exactly like an optional one (the repaired merge_messages; it used to be
+   skipped, so that the earlier occurrence's sub-message was dropped); any other required field keeps the latter value *)
+Lemma merge_required_submessage_both : forall f eh em lh lm, f_label f = LRequired -> f_type f = TMessage ->
+  merge_slot rec f (SOne eh (VMsg (Some em))) (SOne lh (VMsg (Some lm))) = (do m <- rec em lm; Ok (SOne lh (VMsg (Some m)))).
+Proof. intros f eh em lh lm Hl Ht; unfold merge_slot; rewrite Hl, Ht; reflexivity. Qed.
+Lemma merge_required_submessage_earlier_only : forall f eh em lh, f_label f = LRequired -> f_type f = TMessage ->
+  merge_slot rec f (SOne eh (VMsg (Some em))) (SOne lh (VMsg None)) = Ok (SOne lh (VMsg (Some em))).
+Proof. intros f eh em lh Hl Ht; unfold merge_slot; rewrite Hl, Ht; reflexivity. Qed.
+Lemma merge_required_other_latter : forall f es ls, f_label f = LRequired -> f_type f <> TMessage ->
+  merge_slot rec f es ls = Ok ls.
+Proof. intros f es ls Hl Ht. unfold merge_slot. rewrite Hl. destruct (f_type f); try reflexivity. congruence. Qed.
+
 (* oneof: one already set is carried over unless the later occurrence sets the oneof again *)
 Lemma merge_union_later_sets : forall md g ec ev lc lv, lc <> 0 -> lc <> ec ->
   merge_union rec md g (ec, ev) (lc, lv) = Ok (lc, lv).
